@@ -36,6 +36,13 @@ func VH_C18_globals_cleared() {
 	vassert("C18.K2.pool_get", perr == nil)
 	vassert("C18.K2.keys_cleared", L.GetGlobal("KEYS") == lua.LNil)
 	vassert("C18.K2.argv_cleared", L.GetGlobal("ARGV") == lua.LNil)
+	// and it no longer carries the finished call's authority: code that borrows this interpreter next (a WHEREEVAL
+	// filter does) cannot write through tile38.call
+	before := vhSnapshot(s)
+	aofBefore := len(s.aofbuf)
+	L.DoString("return tile38.pcall('set','leak','x','POINT',1,2)")
+	L.SetTop(0)
+	vassert("C18.K2.pooled_interpreter_cannot_write", vhSnapshot(s) == before && len(s.aofbuf) == aofBefore)
 	s.luapool.Put(L)
 }
 
